@@ -68,8 +68,18 @@ impl SecondaryTransaction {
         read_only: bool,
         update: bool,
     ) -> StorageResult<Self> {
+        #[cfg(risinglight_verif)]
+        let verif_args = [
+            ("table", table.table_id() as i64),
+            ("read_only", read_only as i64),
+            ("update", update as i64),
+        ];
+        #[cfg(risinglight_verif)]
+        crate::verif::yield_point("txn.before_pin", &verif_args).await;
         // pin a snapshot at version manager
         let pin_version = table.version.pin();
+        #[cfg(risinglight_verif)]
+        crate::verif::yield_point("txn.pinned", &verif_args).await;
         Ok(Self {
             finished: false,
             mem: None,
@@ -102,6 +112,12 @@ impl SecondaryTransaction {
         // flush data to disk
         mem.flush(self.table.storage_options.io_backend.clone(), &directory)
             .await?;
+        #[cfg(risinglight_verif)]
+        crate::verif::yield_point(
+            "txn.flushed",
+            &[("table", self.table.table_id() as i64), ("rowset", rowset_id as i64)],
+        )
+        .await;
 
         let on_disk = DiskRowset::open(
             directory,
@@ -140,6 +156,8 @@ impl SecondaryTransaction {
 
             use super::IOBackend;
             let path = self.table.get_dv_path(rowset_id, dv_id);
+            #[cfg(risinglight_verif)]
+            let verif_path = path.clone();
             match &self.table.storage_options.io_backend {
                 IOBackend::InMemory(map) => {
                     let mut buf = vec![];
@@ -153,8 +171,14 @@ impl SecondaryTransaction {
                         .create_new(true)
                         .open(path)
                         .await?;
+                    #[cfg(risinglight_verif)]
+                    crate::verif::crash_point("dv.created", &verif_path, &[]);
                     DeleteVector::write_all(&mut file, &deletes).await?;
+                    #[cfg(risinglight_verif)]
+                    crate::verif::crash_point("dv.written", &verif_path, &[]);
                     file.sync_data().await?;
+                    #[cfg(risinglight_verif)]
+                    crate::verif::crash_point("dv.synced", &verif_path, &[]);
                 }
             }
             dvs.push(DeleteVector::new(dv_id, rowset_id, deletes));
@@ -208,10 +232,23 @@ impl SecondaryTransaction {
             ))
         }));
 
+        #[cfg(risinglight_verif)]
+        crate::verif::yield_point(
+            "txn.before_commit",
+            &[("table", self.table.table_id() as i64)],
+        )
+        .await;
+
         // Commit changeset
         self.version.commit_changes(changeset).await?;
 
         self.finished = true;
+        #[cfg(risinglight_verif)]
+        crate::verif::yield_point(
+            "txn.committed",
+            &[("table", self.table.table_id() as i64)],
+        )
+        .await;
 
         Ok(())
     }
@@ -224,6 +261,15 @@ impl SecondaryTransaction {
         assert!(!opts.reversed, "reverse iterator is not supported for now");
 
         let mut iters: Vec<RowSetIterator> = vec![];
+        #[cfg(risinglight_verif)]
+        crate::verif::yield_point(
+            "scan.open",
+            &[
+                ("table", self.table.table_id() as i64),
+                ("epoch", self._pin_version.epoch as i64),
+            ],
+        )
+        .await;
 
         if let Some(rowsets) = self.snapshot.get_rowsets_of(self.table.table_id()) {
             for rowset_id in rowsets {
@@ -327,7 +373,11 @@ impl SecondaryTransaction {
             let directory = self.table.get_rowset_path(rowset_id);
 
             if !self.table.storage_options.disable_all_disk_operation {
+                #[cfg(risinglight_verif)]
+                crate::verif::crash_point("rowset.mkdir.before", &directory, &[]);
                 tokio::fs::create_dir(&directory).await?;
+                #[cfg(risinglight_verif)]
+                crate::verif::crash_point("rowset.mkdir.after", &directory, &[]);
             }
 
             self.mem = Some(SecondaryMemRowsetImpl::new(
